@@ -108,8 +108,13 @@ class Mir:
                 blocks[int(b.group(1))] = lines
             s.fns[name] = Fn(name, len(ptypes), ptypes, ret, blocks)
         s.impls = {}
+        s.closures = {}
+        for name, fn in s.fns.items():
+            if '{closure#' in name and fn.ptypes:
+                m = re.search(r'\{closure@([^}]*)\}', fn.ptypes[0])
+                if m: s.closures[m.group(1)] = fn
         s.enum_variants = {'Option': ['None', 'Some'], 'Result': ['Ok', 'Err'],
-                           'ControlFlow': ['Continue', 'Break']}
+                           'ControlFlow': ['Continue', 'Break'], 'Ordering': ['Less', 'Equal', 'Greater']}
         s._impl_table()
         s._crate_enums()
 
@@ -269,6 +274,10 @@ def merge_val(c, a, b):
         return Arr([merge_val(c, x, y) for x, y in zip(a.e, b.e)])
     if isinstance(a, Ptr) and isinstance(b, Ptr):
         if a.key() == b.key(): return a
+        if a.oid == b.oid and a.lo == b.lo and a.hi == b.hi and len(a.path) == len(b.path) and a.path and a.path[:-1] == b.path[:-1] \
+                and isinstance(a.path[-1], tuple) and isinstance(b.path[-1], tuple) and a.path[-1][0] == 'i' and b.path[-1][0] == 'i':
+            # two elements of the same array: a pointer with a symbolic index
+            return Ptr(a.oid, a.path[:-1] + (('i', merge_val(c, a.path[-1][1], b.path[-1][1])),), a.lo, a.hi)
         raise Unsupported('merge of different pointers')
     if isinstance(a, (Agg, EnumV, Arr, Ptr)) or isinstance(b, (Agg, EnumV, Arr, Ptr)):
         raise Unsupported('merge of %r and %r' % (type(a), type(b)))
@@ -528,6 +537,8 @@ class Executor:
             return s.read_place(fr, s.parse_place(txt[5:]))
         if txt.startswith('const '):
             return s.const(txt[6:].strip())
+        if '::' in txt and re.fullmatch(r'[\w:<> ,&\[\]\']+', txt):          # a function item passed as a value
+            return Agg('fnitem', (txt,))
         raise Unsupported('operand ' + txt)
 
     def const(s, c):
@@ -546,6 +557,10 @@ class Executor:
         if c.endswith('usize::MAX') or c.endswith('usize>::MAX'): return 2 ** 64 - 1
         if c.endswith('::NAN'): raise Unsupported('NaN constant')
         if c.startswith('"') or c.startswith('b"'): return ('str', c)
+        m = re.fullmatch(r'ZeroSized: \{closure@([^}]*)\}', c)
+        if m: return Agg('{closure@%s}' % m.group(1), ())
+        if re.fullmatch(r'[\w:<> ,&\[\]]+::\w+(::<.*>)?', c) and ('::' in c):
+            return Agg('fnitem', (c,))
         raise Unsupported('const ' + c)
 
     def binop(s, op, a, b):
@@ -656,6 +671,12 @@ class Executor:
             return Ptr(oid, path, lo, hi)
         if txt.startswith('copy ') or txt.startswith('move ') or txt.startswith('const '):
             return s.operand(fr, txt)
+        m = re.fullmatch(r'(\{closure@[^}]*\}) \{ (.*) \}', txt)
+        if m:
+            vals = [s.operand(fr, f.split(': ', 1)[1]) for f in split_top(m.group(2))]
+            return Agg(m.group(1), vals)
+        if txt in ('Less', 'Equal', 'Greater'):
+            return EnumV('Ordering', {'Less': -1, 'Equal': 0, 'Greater': 1}[txt], {txt: ()})
         # struct aggregate  Name { f: op, .. }
         m = re.fullmatch(r'([\w:<>, &\[\]\']+?) \{ (.*) \}', txt)
         if m:
@@ -750,9 +771,9 @@ class Executor:
                     s.panics.append((s.pc_term(), msg, fn.name))
                     raise PathDead('assert failed: ' + msg)
                 bb = tgt; continue
-            m = _T_CALL.fullmatch(t)
+            m = _parse_call(t)
             if m:
-                dest, callee, args, tgt = m.group(1), m.group(2), m.group(3), m.group(4)
+                dest, callee, args, tgt = m
                 argv = [s.operand(fr, x) for x in split_top(args)]
                 r = s.call(fr, callee.strip(), argv)
                 s.write_place(fr, s.parse_place(dest), r)
@@ -840,6 +861,22 @@ class Executor:
             else: out[k] = merge_val(c, va, vb)
         return out
 
+    def call_callable(s, f, args):
+        """apply a closure value or fn item to a list of arguments"""
+        if isinstance(f, Agg) and f.kind == 'fnitem':
+            return s.call(None, f.f[0], list(args))
+        if isinstance(f, Agg) and f.kind.startswith('{closure@'):
+            fn = s.mir.closures.get(f.kind[len('{closure@'):-1])
+            if fn is None: raise Unsupported('closure body not found: ' + f.kind)
+            if fn.ptypes[0].startswith('&'):
+                root = s.new_root(f, 'closure')
+                try:
+                    return s.run(fn, [root] + list(args))
+                finally:
+                    s.heap.pop(root.oid, None)
+            return s.run(fn, [f] + list(args))
+        raise Unsupported('not callable: %r' % (f,))
+
     # ---- calls
     def call(s, fr, callee, a):
         from . import mirlib
@@ -859,6 +896,25 @@ _T_SWITCH = re.compile(r'switchInt\((.*)\) -> \[(.*)\]')
 _T_ASSERT = re.compile(r'assert\((!?)((?:copy|move|const) [^,]*), (".*?")(?:, .*)?\) -> \[success: bb(\d+), unwind[^\]]*\]')
 _T_CALL = re.compile(r'(.*?) = (.*?)\((.*)\) -> (?:\[return: bb(\d+), unwind[^\]]*\]|unwind.*)')
 _T_DROP = re.compile(r'drop\(.*\) -> \[return: bb(\d+), unwind[^\]]*\]')
+
+
+def _parse_call(t):
+    """'dest = callee(args) -> [return: bbN, unwind ..]' with parentheses allowed inside the callee's generic arguments"""
+    m = re.search(r' -> (?:\[return: bb(\d+), unwind[^\]]*\]|unwind.*)$', t)
+    if not m: return None
+    head = t[:m.start()]
+    i = head.find(' = ')
+    if i < 0 or not head.endswith(')'): return None
+    dest, rest = head[:i], head[i + 3:]
+    depth = 0
+    for j in range(len(rest) - 1, -1, -1):
+        ch = rest[j]
+        if ch == ')': depth += 1
+        elif ch == '(':
+            depth -= 1
+            if depth == 0:
+                return dest, rest[:j], rest[j + 1:-1], m.group(1)
+    return None
 
 
 def _parse_place(txt):
